@@ -18,7 +18,7 @@ use std::time::Duration;
 pub const META: Meta = Meta {
     id: "C18",
     level: "fault_enumeration",
-    rule: "Real files in a scratch directory: sizes {0,1,65535,65536,65537,131072,200001} x every range whose ends lie on, one before or one after each 64 KiB read boundary (plus 0, 1, size-1, size; empty and whole ranges) read through get_range and through serve() with a Range header; truncation of the file to each of {0, start, start+1, a boundary-1, a boundary, end-1} between construction and poll k for every k; growth after construction; metadata and ETag under re-open, append, set_modified(+-1 ns, +-1 s), replacement by a same-length same-mtime file; directories and /dev/null as non-regular files; two or three streams of one entity polled alternately; ranges of 2^32 bytes and more on sparse files (first chunks). Oracle: std::fs (file bytes, Metadata), non-empty chunks, clean end or an error (never a short clean end, never an empty chunk) within a poll budget owned by the harness. Non-trivial = range crossing a 64 KiB boundary, or a truncation that hits mid-stream; distinct by fingerprint of case.",
+    rule: "Real files in a scratch directory: sizes {0,1,65535,65536,65537,131072,200001} x every range whose ends lie on, one before or one after each 64 KiB read boundary (plus 0, 1, size-1, size; empty and whole ranges) read through get_range and through serve() with a Range header; truncation of the file to each of {0, start, start+1, a boundary-1, a boundary, end-1} between construction and poll k for every k; growth after construction; metadata and ETag under re-open, under metadata-only inode operations in a later wall-clock second (chmod, hard link, rename and back, the same mtime re-applied: same tag), append, set_modified(+-1 ns, +-1 s), replacement by a same-length same-mtime file; directories and /dev/null as non-regular files; two or three streams of one entity polled alternately; ranges of 2^32 bytes and more on sparse files (first chunks). Oracle: std::fs (file bytes, Metadata), non-empty chunks, clean end or an error (never a short clean end, never an empty chunk) within a poll budget owned by the harness. Non-trivial = range crossing a 64 KiB boundary, or a truncation that hits mid-stream; distinct by fingerprint of case.",
     assumptions: &[
         "sandbox filesystem semantics (regular files give full reads; running as root, permission errors are not explored)",
         "an ETag difference after a metadata change is demanded only when std::fs::Metadata itself reports the change",
@@ -423,8 +423,47 @@ fn metadata_checks(dir: &Path, size: u64, acc: &mut Acc) -> Check {
     let (e2, _, _) = etag_of(&p)?;
     ensure!(e1 == e2, "etag-unstable", "two instances on the unmodified file have ETags {:?} and {:?}", crate::util::show_bytes(&e1), crate::util::show_bytes(&e2));
     acc.note("metadata:stable", true, size * 16, || json!({"size": size, "etag": crate::util::show_bytes(&e1)}));
+    // Operations that leave bytes, length, modification time and identity alone (they only move the
+    // inode change time): the file is unmodified, so a new instance carries the same tag. The pause
+    // puts them in a later wall-clock second than the file's creation.
+    std::thread::sleep(Duration::from_millis(1100));
+    {
+        use std::os::unix::fs::{MetadataExt, PermissionsExt};
+        let ops: [(&str, Box<dyn Fn(&Path)>); 5] = [
+            ("later-second", Box::new(|_p: &Path| {})),
+            ("chmod", Box::new(|p: &Path| std::fs::set_permissions(p, std::fs::Permissions::from_mode(0o600)).expect("chmod"))),
+            ("hard-link", Box::new(|p: &Path| {
+                let l = p.with_extension("lnk");
+                std::fs::hard_link(p, &l).expect("link");
+                std::fs::remove_file(&l).expect("unlink");
+            })),
+            ("rename-and-back", Box::new(|p: &Path| {
+                let r = p.with_extension("moved");
+                std::fs::rename(p, &r).expect("rename");
+                std::fs::rename(&r, p).expect("rename back");
+            })),
+            ("same-mtime-reapplied", Box::new(move |p: &Path| File::options().write(true).open(p).unwrap().set_modified(base_mtime).expect("set_modified"))),
+        ];
+        for (i, (name, op)) in ops.iter().enumerate() {
+            op(&p);
+            let md_now = std::fs::metadata(&p).unwrap();
+            if md_now.ino() != md.ino() || md_now.len() != md.len() || md_now.modified().unwrap() != md.modified().unwrap() {
+                acc.count("metadata-only-operation-changed-more-on-this-filesystem");
+                continue;
+            }
+            let (e, l, m) = etag_of(&p)?;
+            ensure!(
+                e == e1 && l == len1 && m == m1,
+                format!("etag-unstable:{name}"),
+                "after {name} (length, mtime and inode unchanged) a new instance has ETag {:?}, len {l}, mtime {m:?}; before: {:?}, {len1}, {m1:?}",
+                crate::util::show_bytes(&e),
+                crate::util::show_bytes(&e1)
+            );
+            acc.note("metadata:stable-after-inode-op", true, size * 16 + 10 + i as u64, || json!({"size": size, "op": name}));
+        }
+    }
     // Keep an instance open across the changes: its own view must not change.
-    let keep = Crf::new(File::open(&p).unwrap(), http::HeaderMap::new()).unwrap();
+    let keep =Crf::new(File::open(&p).unwrap(), http::HeaderMap::new()).unwrap();
     // 1. modification time.
     for (i, delta) in [(1i64, 1i64), (2, -1), (3, 1_000_000_000), (4, -1_000_000_000)] {
         let nm = if delta > 0 { base_mtime + Duration::from_nanos(delta as u64) } else { base_mtime - Duration::from_nanos((-delta) as u64) };
@@ -629,7 +668,7 @@ pub fn run(cx: &Cx) -> Acc {
         }));
     }
     let sizes: Vec<u64> = SIZES.to_vec();
-    acc.merge(par_units(cx, "metadata", &sizes, true, "re-open, mtime +-1ns/+-1s, append, same-length same-mtime replacement; non-regular files", |cx, &size, acc| {
+    acc.merge(par_units(cx, "metadata", &sizes, true, "re-open, metadata-only inode operations one second later (chmod, hard link, rename and back, same mtime re-applied), mtime +-1ns/+-1s, append, same-length same-mtime replacement; non-regular files", |cx, &size, acc| {
         let scratch = Scratch::new(&format!("c18m-{size}"));
         let case = json!({"metadata": size});
         acc.run_case(cx, "metadata", &case, |acc| metadata_checks(&scratch.dir, size, acc));
